@@ -39,13 +39,17 @@ def spec_mutants(rep):
         src = (tlc.SPECS / fname).read_text()
         if src.count(old) != 1:
             raise core.MachineryError(f"selftest: text to mutate not found exactly once in {fname}")
-        backup = tlc.SPECS / (fname + ".selftest-backup")
-        shutil.copy(tlc.SPECS / fname, backup)
+        # the mutated specification lives in a scratch copy of specs/: the real files are never touched
+        scratch = tlc.workdir() / "specs"
+        shutil.copytree(tlc.SPECS, scratch)
+        real = tlc.SPECS
         try:
-            (tlc.SPECS / fname).write_text(src.replace(old, new))
+            (scratch / fname).write_text(src.replace(old, new))
+            tlc.SPECS = scratch
             res = tlc.run(mod, cfg, workers=core.NCPU, big=True, heap="12g", timeout=1800, check=False)
         finally:
-            shutil.move(backup, tlc.SPECS / fname)
+            tlc.SPECS = real
+            shutil.rmtree(scratch, ignore_errors=True)
         ok = inv in res.invariant_violated
         results.append({"spec": fname, "mutation": what, "tlc_reports": res.invariant_violated or res.error or "nothing", "as_expected": ok})
         print(f"spec mutant [{fname}: {what}] -> TLC: {res.invariant_violated or res.error or 'no violation'} {'OK' if ok else 'UNEXPECTED'}")
